@@ -174,7 +174,7 @@ def random_space(rng, nenv, max_cells=4, graph=None):
         return {"type": "grid", "w": w, "h": h, "d": d, "bc": bc, "hh": rng.choice([1, 1, 2]),
                 "cell_env": [rng.randrange(nenv) for _ in range(n)]}
     n = rng.randint(1, max_cells)
-    nodes = [{"hh": rng.choice([1, 1, 2, 3]), "env": rng.randrange(nenv)} for _ in range(n)]
+    nodes = [{"hh": rng.choice([1, 1, 2]), "env": rng.randrange(nenv)} for _ in range(n)]
     edges = []
     pairs = [(i, j) for i in range(n) for j in range(i + 1, n)]
     rng.shuffle(pairs)
